@@ -181,6 +181,10 @@ pub enum Step {
     DropContext,
     OpenStream(usize),
     AdvanceClock(u64),
+    /// Sets the handle's identifier counters (verification hook): the next packet identifier and
+    /// the next subscription identifier. Used to bring identifiers that are far apart in
+    /// allocation order next to each other in time (e.g. k and k+256 both outstanding).
+    SetNextIds { packet_id: u16, sub_id: u32 },
     /// Macro step (C11): a PRNG-driven history of `ops` identifier-consuming operations from
     /// `clones` handle clones with at most `max_outstanding` unacknowledged, executed and
     /// checked online (identifier uniqueness among outstanding operations). A pure function of
@@ -212,6 +216,7 @@ impl Step {
             Step::DropContext => "DropContext",
             Step::OpenStream(_) => "OpenStream",
             Step::AdvanceClock(_) => "AdvanceClock",
+            Step::SetNextIds { .. } => "SetNextIds",
             Step::IdHistory { .. } => "IdHistory",
         }
     }
